@@ -434,6 +434,7 @@ def run(cr: CheckRun) -> None:
         for clause, kk, idx, rep, src, err, ste in r[1]:
             cr.violation(f"{clause}:{kk}", f"{clause} at statement {idx} ({kk}) {ste} {err}; program:\n" + src[:700], rep)
     cr.cov["programs"] = n
+    cr.cov["traces_validated_against_impl"] = n
     cr.cov["evaluations"] = n
     cr.cov["traces"] = len(mp)
     cr.cov["distinct_nontrivial"] = n
